@@ -21,7 +21,7 @@ def P18 : Int := 10 ^ Osmomath.DecPrecision
 def Pdiff : Int := 10 ^ (Osmomath.BigDecPrecision - Osmomath.DecPrecision)
 
 /-- `big.Int.BitLen() ≤ n`  ⇔  |x| < 2^n. -/
-def fitsBits (n : Nat) (x : Int) : Bool := x.natAbs < 2 ^ n
+@[irreducible] def fitsBits (n : Nat) (x : Int) : Bool := x.natAbs < 2 ^ n
 
 /-- `assertMaxBitLen`: panic iff BitLen > maxDecBitLen. -/
 def chk (x : Int) : Option Int := if fitsBits Osmomath.maxDecBitLen x then some x else none
